@@ -123,9 +123,7 @@ def serializer_step(cfg):
         q2 = [z3.If(z3.And(anyin, c1 == i), pid, q1[i]) for i in range(depth)]
         c2 = c1 + b2i(anyin, W)
         if has_clear:
-            cl = o.done("clear")
-            ob.append(("clear is always accepted", cl == o.en("clear")))
-            c2 = z3.If(cl, z3.BitVecVal(0, W), c2)
+            c2 = z3.If(o.done("clear"), z3.BitVecVal(0, W), c2)   # nothing is demanded of clear's readiness (statement is silent)
         wit = {"depth requests pending": cnt == depth}
         if depth > 1:
             wit["request accepted and response delivered in one cycle"] = z3.And(anyin, anyout)
